@@ -276,17 +276,18 @@ let check (b : block) : verdict list =
         let o0 = s0.obs in
         if not o0.save_ok then begin
           bump "no_clause_cache";
-          (* K14: no clause cache although the model was loaded from a CNF *)
+          (* no clause cache although the model was loaded from a CNF: K14, repaired by F9 (Ddnnf::new
+             attaches the cache to every CNF input) - a DETECTOR without finding line since then *)
           add (Viol ("save-cnf:no-clause-cache",
                      Printf.sprintf "model loaded from the CNF [%s] over %d features: save-cnf answers \"%s\" (and clause-update is refused): the stored clause set is empty, so Ddnnf::new creates no clause cache"
                        (String.concat " / " (List.map (fun c -> String.concat " " (List.map string_of_int c)) raw)) n0 o0.save_msg));
-          (* the model of HEAD (no cache for an empty stored set) against the implementation:
-             every command once from the loaded state *)
-          (match Mdl.ClauseCache.load_cnf loadable (List.map zz raw) (Conv.nat_of_int n0) with
+          (* diagnosis: does the implementation behave like the loader BEFORE F9 (load_cnf_v0: no
+             cache for an empty stored set)?  every command once from the loaded state *)
+          (match Mdl.ClauseCache.load_cnf_v0 loadable (List.map zz raw) (Conv.nat_of_int n0) with
            | None -> add (Diff ("load", "the model says loading panics but the implementation loaded the CNF"))
            | Some d0 ->
              if Mdl.ClauseCache.save_cnf d0 <> Mdl.ClauseCache.AErr Mdl.ClauseCache.E5_no_save then
-               add (Diff ("initial-save", "the model has a clause cache, the implementation has none"));
+               add (Diff ("initial-save", "the model of the loader before F9 has a clause cache as well, the implementation has none"));
              List.iter (fun s ->
                  if s.depth = 1 then begin
                    let pc = parse_cmd s.cmd in
@@ -320,9 +321,8 @@ let check (b : block) : verdict list =
           if List.sort compare (List.map norm (List.filter (fun c -> not (List.exists (fun l -> List.mem (-l) c) c)) raw))
              <> CS.elements st0.cs then bump "initial_saves_differing_from_input_clauses";
           (* the model's stored set *)
-          (* a clause cache exists: for a non-empty stored set both loader variants of the model
-             coincide; for an empty one this is the repaired loader (C12_refines_k11_repaired) *)
-          let md0 = Mdl.ClauseCache.load_cnf_with true loadable (List.map zz raw) (Conv.nat_of_int n0) in
+          (* the loader of the model (after F9: a cache for every CNF input, C12_load_has_cache) *)
+          let md0 = Mdl.ClauseCache.load_cnf loadable (List.map zz raw) (Conv.nat_of_int n0) in
           (match md0 with
            | None -> add (Diff ("load", "the model says loading panics (unsatisfiable input) but the implementation loaded it"))
            | Some d0 ->
